@@ -13,9 +13,9 @@ variable {σ τ ε : Type}
 
 /-- the `match self.0.__state` dispatch resolves every stored number to its state -/
 theorem dispatchOK_of_machineOK (cfg : Config σ τ ε) (h : MachineOK cfg) :
-    DispatchOK cfg.dfa (dispatch (stateArms cfg.dfa)) := by
+    DispatchOK cfg.dfa cfg.inl (dispatch (stateArms cfg.dfa cfg.inl)) := by
   intro t ht hi
-  exact dispatch_correct cfg.dfa h.initNotInlined t ht (hasArm_of_not_inlinedAt cfg.dfa t hi)
+  exact dispatch_correct cfg.dfa cfg.inl h.inl t ht (hasArm_of_not_inlinedAt cfg.inl t hi)
 
 /-- fused: once end-of-input has been handled, `next()` returns `None` and changes nothing -/
 theorem next_done (cfg : Config σ τ ε) (st : LState σ) (h : st.done = true) : next cfg st = some (none, st) := by
@@ -42,15 +42,15 @@ theorem isEntry_props (cfg : Config σ τ ε) (hm : MachineOK cfg) (e : Nat) (he
 
 /-- the number stored for an entry state selects that state's arm -/
 theorem dispatch_entry (cfg : Config σ τ ε) (hm : MachineOK cfg) (e : Nat) (he : IsEntry cfg e) :
-    dispatch (stateArms cfg.dfa) (renumber (inlinedStates cfg.dfa) e) = some e := by
+    dispatch (stateArms cfg.dfa cfg.inl) (renumber cfg.inl e) = some e := by
   obtain ⟨hlt, hini, _⟩ := isEntry_props cfg hm e he
-  exact dispatch_correct cfg.dfa hm.initNotInlined e hlt (hasArm_of_initial cfg.dfa e hini)
+  exact dispatch_correct cfg.dfa cfg.inl hm.inl e hlt (hasArm_of_initial cfg.dfa cfg.inl hm.inl e hini)
 
 /-- `switch` stores the number of an entry state (0 for an unknown name) -/
 theorem switchNum_entry (cfg : Config σ τ ε) (r : String) :
-    ∃ e, IsEntry cfg e ∧ switchNum cfg r = renumber (inlinedStates cfg.dfa) e := by
+    ∃ e, IsEntry cfg e ∧ switchNum cfg r = renumber cfg.inl e := by
   unfold switchNum
-  cases hf : (switchTable cfg.dfa cfg.entries).find? (·.1 = r) with
+  cases hf : (switchTable cfg.inl cfg.entries).find? (·.1 = r) with
   | none => exact ⟨0, Or.inl rfl, (renumber_zero _).symm⟩
   | some p =>
     have hmem := List.mem_of_find?_eq_some hf
@@ -230,7 +230,7 @@ theorem goto_target (cfg : Config σ τ ε) (hm : MachineOK cfg) (s c t : Nat)
 or the error returned, at a position of `it0` that is past its beginning or with the end of input
 handled; `return None` happens only at the start, in state 0; the `match` is never left. -/
 theorem scanPlain_ok (cfg : Config σ τ ε) (hm : MachineOK cfg) (ns : Nat → Option Nat)
-    (hns : DispatchOK cfg.dfa ns) (it0 : List Nat) (q0 i0 : Nat) (iter : List Nat) :
+    (hns : DispatchOK cfg.dfa cfg.inl ns) (it0 : List Nat) (q0 i0 : Nat) (iter : List Nat) :
     ∀ (n s : Nat) (st : LState σ), iter = it0.drop n → n ≤ it0.length → st.initial = i0 →
       SavedOK it0 st.last →
       (n = 0 → st.last = none ∧ (cfg.dfa.st s).accepting = [] ∧ st.state = q0) →
@@ -286,11 +286,11 @@ theorem scanPlain_ok (cfg : Config σ τ ε) (hm : MachineOK cfg) (ns : Nat → 
         obtain ⟨htlt, ht0⟩ := goto_target cfg hm s c t hl
         show OutOK it0 q0 i0 (gotoK (scanPlain cfg ns) cfg ns rest (stepSt cfg (cfg.dfa.st s) c rest st) t)
         unfold gotoK
-        by_cases hi : inlinedAt cfg.dfa t = true
+        by_cases hi : inlinedAt cfg.inl t = true
         · rw [if_pos hi]
           exact ih (n + 1) t _ hrest hn1 (e3.trans hini) hsv1
             (fun h0 => absurd h0 (Nat.succ_ne_zero n)) (fun _ => ht0)
-        · have hi' : inlinedAt cfg.dfa t = false := by simpa using hi
+        · have hi' : inlinedAt cfg.inl t = false := by simpa using hi
           rw [if_neg hi]
           simp only [hns t htlt hi']
           exact ih (n + 1) t _ hrest hn1 (e3.trans hini) hsv1
@@ -299,7 +299,7 @@ theorem scanPlain_ok (cfg : Config σ τ ε) (hm : MachineOK cfg) (ns : Nat → 
 /-- The generated state code of an entry state, run at a lexeme boundary. -/
 theorem scan_entry_ok (cfg : Config σ τ ε) (hm : MachineOK cfg) (st : LState σ) (hl : st.last = none)
     (e : Nat) (he : IsEntry cfg e) :
-    OutOK st.iter st.state st.initial (scan cfg (dispatch (stateArms cfg.dfa)) e st.iter st) := by
+    OutOK st.iter st.state st.initial (scan cfg (dispatch (stateArms cfg.dfa cfg.inl)) e st.iter st) := by
   have hns := dispatchOK_of_machineOK cfg hm
   rw [scan_eq_scanPlain cfg _ hm.flags hm.acceptAny hm.targets hns e st.iter st
     (by intro h; rw [hl] at h; cases h)]
@@ -316,7 +316,7 @@ theorem scan_entry_ok (cfg : Config σ τ ε) (hm : MachineOK cfg) (st : LState 
 
 /-- `callAction` leaves a boundary state and does not touch the iterator or `done` -/
 theorem callAction_ok (cfg : Config σ τ ε) (a : Nat) (st1 : LState σ) (hl : st1.last = none)
-    (hi : ∃ e, IsEntry cfg e ∧ st1.initial = renumber (inlinedStates cfg.dfa) e) :
+    (hi : ∃ e, IsEntry cfg e ∧ st1.initial = renumber cfg.inl e) :
     (∃ st2, callAction cfg a st1 = .cont st2 ∧ Ready cfg st2 ∧ st2.iter = st1.iter ∧ st2.done = st1.done) ∨
     (∃ x st2, callAction cfg a st1 = .ret (some x) st2 ∧ (∀ l, x ≠ .invalid l) ∧ Ready cfg st2 ∧
       st2.iter = st1.iter ∧ st2.done = st1.done) := by
@@ -383,16 +383,16 @@ def RoundOK (cfg : Config σ τ ε) (st : LState σ) : StepOut σ τ ε → Prop
 
 theorem round_ok (cfg : Config σ τ ε) (hm : MachineOK cfg) (st : LState σ) (hr : Ready cfg st)
     (e : Nat) (he : IsEntry cfg e) :
-    RoundOK cfg st (execState cfg (dispatch (stateArms cfg.dfa)) e st.iter st) := by
+    RoundOK cfg st (execState cfg (dispatch (stateArms cfg.dfa cfg.inl)) e st.iter st) := by
   obtain ⟨hl, hsi, e0, he0, hst0⟩ := hr
   have hok := scan_entry_ok cfg hm st hl e he
   unfold execState
-  cases ho : scan cfg (dispatch (stateArms cfg.dfa)) e st.iter st with
+  cases ho : scan cfg (dispatch (stateArms cfg.dfa cfg.inl)) e st.iter st with
   | act a st1 =>
     rw [ho] at hok
     have hact : ActOK st.iter st.initial st1 := hok
     obtain ⟨k, hk, hkle, hkp⟩ := hact.iter
-    have hent : ∃ e, IsEntry cfg e ∧ st1.initial = renumber (inlinedStates cfg.dfa) e :=
+    have hent : ∃ e, IsEntry cfg e ∧ st1.initial = renumber cfg.inl e :=
       ⟨e0, he0, by rw [hact.initial, ← hsi, hst0]⟩
     show RoundOK cfg st (callAction cfg a st1)
     rcases callAction_ok cfg a st1 hact.last hent with ⟨st2, hc, hr2, hi2, hd2⟩ | ⟨x, st2, hc, hx, hr2, hi2, hd2⟩
@@ -455,12 +455,12 @@ theorem nextLoop_ok (cfg : Config σ τ ε) (hm : MachineOK cfg) :
       have hd' : st.done = false := by simpa using hd
       have hlen' := hnd hd'
       obtain ⟨e0, he0, hst0⟩ := hr.2.2
-      have hdisp : dispatch (stateArms cfg.dfa) st.state = some e0 := by
+      have hdisp : dispatch (stateArms cfg.dfa cfg.inl) st.state = some e0 := by
         rw [hst0]
         exact dispatch_entry cfg hm e0 he0
       have hround := round_ok cfg hm st hr e0 he0
       simp only [hdisp]
-      cases hx : execState cfg (dispatch (stateArms cfg.dfa)) e0 st.iter st with
+      cases hx : execState cfg (dispatch (stateArms cfg.dfa cfg.inl)) e0 st.iter st with
       | ret item st' =>
         rw [hx] at hround
         exact ⟨item, st', rfl, hround⟩
